@@ -44,6 +44,20 @@ def gen(tier, seed):
         src, feat = p(rnd)
         cmds = dbggen.gen_script(rnd, dbggen.READONLY + dbggen.MUTATING, dbggen.origin_of(src), 12, maxlen=25, end="eof")
         specs.append(("random:" + p.__name__, rnd.choice([feat, 1]), src, [], cmds))
+    rnd2 = random.Random(seed + 101)
+    for i in range(n // 8):
+        p = dbggen.PROGRAMS_LATER[i % len(dbggen.PROGRAMS_LATER)]
+        src, feat = p(rnd2)
+        cmds = dbggen.gen_script(rnd2, dbggen.READONLY + dbggen.MUTATING, dbggen.origin_of(src), 12, maxlen=25, end="eof")
+        specs.append(("random:" + p.__name__, rnd2.choice([feat, 1]), src, [], cmds))
+    # a HALT reached INSIDE a subroutine (an error exit), with every resuming command issued at every point before it
+    for s7 in range(12):
+        src, feat0 = dbggen.p_sub_halts(random.Random(s7))
+        for feat in sorted({feat0, 1}):
+            for k in range(0, 7):
+                for x in resumes:
+                    for y in (("step",), ("continue",)):
+                        specs.append(("halt-in-subroutine", feat, src, [], ([("stepinto", k)] if k else []) + [x, y]))
     return rnd, specs
 
 
@@ -78,7 +92,7 @@ def correspondence(ctx, violations, known_hits):
     return dbgcommon.coverage(r,
         "programs that jump to xFFFF, below the origin, to xFE00 and above, or park on HALT x EXHAUSTIVE sequences (length 2, thorough 3) "
         "of resuming commands {continue, step, step into 1/5/100, step out} issued at those PCs, followed by end of input, under both "
-        "feature settings; goto from a parked state; random scripts on all program families ended by end of input; for every session "
+        "feature settings; subroutines that end the program themselves (HALT before the return) with every resuming command at every point before it; goto from a parked state; random scripts on all program families ended by end of input; for every session "
         "the implementation's loop iterations are checked against the proved bound (executed + commands read + 1) and a session that "
         "hits the iteration cap where the model terminates is a violation", profiles,
         bound_checked=stats["bound_checked"], max_slack=stats["max_slack"], budget_hits=stats["budget_hits"],
